@@ -5,8 +5,11 @@ cd /repo || exit 3
 if [ -n "$(git status --porcelain --untracked-files=no)" ]; then echo "/repo is dirty"; exit 3; fi
 git apply "$PATCH" || { echo "patch does not apply"; exit 3; }
 cd /verif
+# evidence files are rewritten by every run: keep the clean-tree evidence and put it back afterwards
+rm -rf /verif/out/evidence.keep; cp -r /verif/evidence /verif/out/evidence.keep
 for id in "$@"; do
   ./check $id --tier quick 2>&1 | grep -E "^VIOLATION|^KNOWN|^INCONCLUSIVE|obligations=" | cut -c1-220 | tail -4
   echo "rc[$id]=${PIPESTATUS[0]}"
 done
 git -C /repo checkout -- .
+rm -rf /verif/evidence; mv /verif/out/evidence.keep /verif/evidence
